@@ -306,14 +306,37 @@ func C07(c *Ctx) {
 // (token) of GenerateToken.
 func (c *Ctx) tokenHalves(fn string, add ssa.CallInstruction, cookie *StateOp, genName string) {
 	r := c.R
+	// half reports whether v is result #idx of GenerateToken, possibly handed
+	// out of a helper (a phi whose other operands are empty-string constants
+	// returned on the helper's error paths)
+	var half func(v ssa.Value, idx, d int) bool
+	half = func(v ssa.Value, idx, d int) bool {
+		if d > 4 {
+			return false
+		}
+		if gc, i := CallOf(v); gc != nil && Callee(gc) == genName && i == idx {
+			return true
+		}
+		if phi, ok := v.(*ssa.Phi); ok {
+			n := 0
+			for _, e := range phi.Edges {
+				if s, isC := ConstStr(e); isC && s == "" {
+					continue
+				}
+				if !half(e, idx, d+1) {
+					return false
+				}
+				n++
+			}
+			return n > 0
+		}
+		return false
+	}
 	if add != nil {
-		v := Arg(add, 2)
-		gc, idx := CallOf(v)
-		r.Check(gc != nil && Callee(gc) == genName && idx == 0, "C07.hash-stored", fn, "AddRememberToken.token", posf(c, add), "stores the hash (result #0 of GenerateToken)", "value stored in the token table is not the hash returned by GenerateToken (it would be the cookie value itself or something else)")
+		r.Check(half(Arg(add, 2), 0, 0), "C07.hash-stored", fn, "AddRememberToken.token", posf(c, add), "stores the hash (result #0 of GenerateToken)", "value stored in the token table is not the hash returned by GenerateToken (it would be the cookie value itself or something else)")
 	}
 	if cookie != nil {
-		gc, idx := CallOf(cookie.Val)
-		r.Check(gc != nil && Callee(gc) == genName && idx == 1, "C07.hash-stored", fn, "PutCookie.value", posf(c, cookie.Call), "sends the token (result #1 of GenerateToken)", "cookie value is not the token returned by GenerateToken")
+		r.Check(half(cookie.Val, 1, 0), "C07.hash-stored", fn, "PutCookie.value", posf(c, cookie.Call), "sends the token (result #1 of GenerateToken)", "cookie value is not the token returned by GenerateToken")
 	}
 }
 
